@@ -27,14 +27,17 @@ CHECKS.update({
             "offsets) x store algorithms, plus explicit-state BFS to closure in which witness pids must keep retrieving "
             "their exact bytes after every history of calls on other pids (the other pids include suffix / prefix relatives "
             "of the witnesses). Environment answers: every raw write(2) of a store, in turn, is a SHORT write - a store "
-            "that reports success must still retrieve the exact bytes, size and digests.",
+            "that reports success must still retrieve the exact bytes, size and digests."
+            " Line-level part (engine L): two overlapping calls on one instance with ONE pre-emption placed at every source line of the package (thorough tier: every bytecode); each call's result must be what a sequential run gives.",
             S_NOTE + " Byte values follow a position-dependent pattern; digest correctness for arbitrary bytes is hashlib's.",
             "bounded-exhaustive input enumeration + explicit-state model checking of the implementation", "4/C01"),
     "C02": ("E+S", "model_checking",
             "All 13x13 (additional, checksum) algorithm combinations x spellings x contents, every spelling for "
             "get_hex_digest, and BFS over histories of store_object calls with differing algorithm arguments on ONE "
             "instance (instance attributes carried along; get_hex_digest and rejected re-stores in the alphabet), checking "
-            "the key set and every digest of every call; digests after short writes and for an object altered on disk.",
+            "the key set and every digest of every call (hidden in-memory state that cannot be pickled is fingerprinted and "
+            "re-created by replaying the history); digests after short writes and for an object altered on disk."
+            " Line-level part (engine L): two overlapping calls on one instance with ONE pre-emption placed at every source line of the package (thorough tier: every bytecode); each call's result must be what a sequential run gives.",
             S_NOTE, "bounded-exhaustive input enumeration + explicit-state model checking (one-instance histories)", "4/C02"),
     "C03": ("S", "model_checking",
             "BFS to closure over store/tag/delete/delete_if_invalid on pids p/q, contents A/B, cids cA/cB/never-stored; "
@@ -58,8 +61,10 @@ CHECKS.update({
             "Every interleaving (file-system-call, raw read/write and lock-operation granularity) of pairs of calls from a "
             "10-call menu from four starting states, explored on the real code under a controlled scheduler with exact "
             "state caching; each terminal observation must equal that of a sequential order of the same calls run on the "
-            "real code. Thorough: all 55 pairs x 4 states, pristine-directory variants, two-call programs and triples "
-            "with pre-emption bound 2.",
+            "real code; the observation includes a follow-up sequence (delete every pid) on the same instance and the state it "
+            "leaves. Engine L: the same pairs plus pairs that are independent at file level, ONE pre-emption at every source "
+            "line of the package (thorough: every bytecode for a selection). Thorough: all 55 pairs x 4 states, "
+            "pristine-directory variants, two-call programs and triples with pre-emption bound 2.",
             "Trusted: the cooperative lock/condition/flock shims (validated by the self-test against the real primitives), "
             "the interposition layer, GIL atomicity between scheduling points. Known findings C07-R1, C07-R3 are listed "
             "by exact observation; anything else is a VIOLATION.",
@@ -84,7 +89,8 @@ CHECKS.update({
     "C08": ("T+F", "model_checking",
             "Engine T: lock-heavy scenarios (same pid / cid / document, two waiters on one condition so the notify() wake-up "
             "choice is explored), every interleaving: no state without an enabled thread, all locked lists empty at the "
-            "end, eight follow-up calls on the identifiers complete. Engine F: an I/O error at every fault site of every "
+            "end, eight follow-up calls on the identifiers complete; four-call scenarios with two identifiers per condition "
+            "family (pre-emption bound 2). Engine F: an I/O error at every fault site of every "
             "call of the C13 table, then lists empty and follow-up calls on the same instance complete.",
             T_NOTE + " Triples are pre-emption bounded (2).",
             "stateless model checking under a controlled scheduler (deadlock = no enabled thread) + exhaustive "
@@ -106,7 +112,9 @@ CHECKS.update({
     "C12": ("T", "model_checking",
             "Every interleaving of pairs drawn from store(v1), store(v2), retrieve, delete(format), delete(all), "
             "delete_object on one pid and one or two formats, document absent / present; linearizability oracle from "
-            "sequential runs of the real code; I9 on every step. Thorough adds triples (pre-emption bound 2).",
+            "sequential runs of the real code (including a follow-up delete-all on the same instance and the state it leaves); "
+            "I9 on every step; engine L: every pair again with ONE pre-emption at every source line of the package. "
+            "Thorough adds triples (pre-emption bound 2) and bytecode granularity.",
             T_NOTE, "stateless model checking under a controlled scheduler with a linearizability oracle", "4/C12"),
     "C13": ("F", "fault_enumeration",
             "For 24 (call, starting state) cases: an OSError (EIO, ENOSPC, EACCES) at every create / open / rename / remove "
@@ -201,6 +209,10 @@ def main():
              "kind_free_text": "thread-interleaving explorer of the real FileHashStore: controlled scheduler, scheduling "
                                "points at file-system calls / raw I/O / lock operations, DFS with exact state caching, "
                                "persistent-set reduction with verified footprints, linearizability oracle"},
+            {"name": "L", "path": "hsverif/engine_l.py",
+             "serves_properties": ["C01", "C02", "C07", "C12"],
+             "kind_free_text": "iterative context bounding at source-line / bytecode granularity, pre-emption bound 1: "
+                               "each thread is pre-empted at its n-th trace event for every n; same linearizability oracle"},
             {"name": "F", "path": "hsverif/engine_f.py",
              "serves_properties": ["C08", "C09", "C10", "C13"],
              "kind_free_text": "single-call recorder: crash image before every file-system operation, one injected "
